@@ -7,6 +7,9 @@ from .runner import *
 P = KW['print']; VAR = KW['var']; FUN = KW['fun']; IF = KW['if']; WHILE = KW['while']; TRUE = KW['true']; RET = KW['return']; BRK = KW['break']; CONT = KW['continue']; FOR = KW['for']
 INP = NAT['input']
 
+DIRECTIVE_LINES = ['#!/usr/bin/env borno', '#!borno', '#!', '#', '# comment', '#lang borno', '#include <x>', '<?borno', '%YAML 1.2', '-*- coding: utf-8 -*-', '// -*- mode: borno -*-', '@echo off', '"use strict";',
+                   '\ufeff#!/usr/bin/env borno', ':set fileencoding=utf-8', 'package main', 'import x', '---', '\\', 'exit', '__END__']
+
 def c19(tier, rng):
     cli = []
     ok = f'{P} "out";\n'.encode()
@@ -54,6 +57,12 @@ def c19(tier, rng):
     # ইনপুট misuse
     for a in ['1', 'nil', '[1]', '"a", "b"', f'{INP}', '"" + 5']:
         cli.append(CliCase('input-misuse', ['s.bn'], {'s.bn': f'{P} {INP}({a});\n{P} "after";\n'.encode()}, b'line\nnext\n', 's.bn'))
+    # a first line that looks like a directive to a shell, an editor or another language is program text like any other
+    for first in DIRECTIVE_LINES:
+        for rest in (f'{P} "ran";\n', f'{P} "ran";\n{P} nope;\n'):
+            cli.append(CliCase('first-line-directive', ['s.bn'], {'s.bn': (first + '\n' + rest).encode()}, b'', 's.bn'))
+        cli.append(CliCase('first-line-directive', ['s.bn'], {'s.bn': (first + '\n').encode()}, b'', 's.bn'))
+        cli.append(CliCase('first-line-directive', ['s.bn'], {'s.bn': (' ' + first + '\n' + f'{P} "ran";\n').encode()}, b'', 's.bn'))
     # invalid UTF-8 and odd bytes in the script
     for raw in [b'\xff', f'{P} "'.encode() + b'\xc3\x28' + b'";\n', b'\xef\xbb\xbf' + ok, ok + b'\x00', ok.replace(b'\n', b'\r\n'), b'']:
         cli.append(CliCase('odd-bytes', ['s.bn'], {'s.bn': raw}, b'', 's.bn'))
@@ -80,7 +89,7 @@ def c19(tier, rng):
     for name, src in rx:
         cli.append(CliCase('reexec-script', ['s.bn'], {'s.bn': src.encode()}, b'', 's.bn', note=name))
     rule = (f'{len(names)} script names (every extension shape, directories, missing), 7 argument counts; {len(bodies)} outcome classes (clean, lexical / syntax / runtime error first, middle, last, in a loop, lenient) x 0..3 ইনপুট calls with and without prompt x '
-            f'{len(stdins)} stdin contents (0..4 lines, with/without final newline, CRLF, padded, Unicode blanks); ইনপুট misuse; odd script bytes; {n} random programs; {len(sc)} size-only scripts (deep nesting, long lists, many names), also followed by a runtime / lexical error; {len(rx)} re-execution scripts — all through the real executable, compared with the model on stdout, stderr and status; '
+            f'{len(stdins)} stdin contents (0..4 lines, with/without final newline, CRLF, padded, Unicode blanks); ইনপুট misuse; odd script bytes; {len(DIRECTIVE_LINES)} first lines that look like directives to a shell, an editor or another language; {n} random programs; {len(sc)} size-only scripts (deep nesting, long lists, many names), also followed by a runtime / lexical error; {len(rx)} re-execution scripts — all through the real executable, compared with the model on stdout, stderr and status; '
             'on the implementation alone: status 0 iff stderr empty, 65/70 exclusive, stdout silent on 64/65. Non-trivial = every run.')
     return {'cli': cli, 'cases': [], 'rule': rule, 'exhaustive': False, 'cli_oracles': [cli_oracle_c19]}
 
@@ -109,6 +118,7 @@ def c20(tier, rng):
         f'{P} 1 + 2;', '1 + 2;', '"text";', 'nil;', '[1, {a: 2}];', f'{LEN}([1, 2, 3]);', f'{MAX}(3, 9);', f'{VAR} v = 5;', 'v;', 'v = v + 1;', f'{FUN} h() {{ {RET} 7; }}', 'h();',
         '@', '"unterminated', '1 +;', f'{P} (;', f'{VAR} = 3;', 'nope;', '1 / 0;', f'{LEN}(5);', f'{P} [1][4];', f'{LEN} = 5;', f'{LEN} = 5; {LEN}([1]);', f'{MAX} = 0; 1 / {MAX};', f'{P} 1 {P} 2;', '{',
         '1' + '0' * 400 + ';', '১' + '০' * 400 + ';', f'{P} ' + '৯' * 310 + '.৫;', '/* open', f'{P} "a" + ৫;', f'{VAR} বড় = ' + '৯' * 309 + ';',
+        'exit', 'quit', 'exit;', 'quit();', ':q', '.exit', 'help', 'clear', '\\q', f'{P} 1; \\', '\\', f'{P} 1 \\', '...', '\x04', '#!/usr/bin/env borno', '# comment',
         f'{FUN} e1() {{ {RET}; }} e1();', f'{FUN} e2() {{ }} e2();', f'{FUN} e3() {{ {RET} nil; }} e3();', f'{RET} 42;', f'{RET} "kept";', f'{RET} [1, 2];', f'{FUN} e4() {{ {WHILE} ({TRUE}) {{ {BRK}; }} }} e4();',
         f'{FUN} e5() {{ {FOR} ({VAR} i = 0; i < 2; i = i + 1) {{ {CONT}; }} }} e5();', f'{CONT};',
         f'{BRK};', f'{RET} 1;', '', '   ', '// comment', f'{IF} ({TRUE}) 3;', f'{VAR} a = 1; {VAR} a = 2;', '1; 2; 3;', f'{WHILE} ({TRUE}) {{ {BRK}; }}', 'x' * 70000 + ';',
@@ -154,7 +164,7 @@ def c20(tier, rng):
     # the response to each probe as the first line of a fresh session
     for pr in probes + probes_fn + ['1 + 1;']:
         cli.append(CliCase('fresh-probe', [], {}, (pr + '\n').encode(), None, note=pr))
-    rule = (f'every session of <= {L} lines over a pool of {len(pool) - 1} representative lines (statements, bare expressions of every kind, lexical / syntax / runtime errors incl. out-of-range literals in both scripts and an open comment, assignments to built-in names, stray signals, blank and comment lines) '
+    rule = (f'every session of <= {L} lines over a pool of {len(pool) - 1} representative lines (statements, bare expressions of every kind, lexical / syntax / runtime errors incl. out-of-range literals in both scripts and an open comment, lines that look like commands of a shell or another REPL (exit, quit, :q, help, a trailing backslash, a shebang), assignments to built-in names, stray signals, blank and comment lines) '
             f'followed by a probe line that uses only literals and built-ins (and by three probes that define and call a function ending in a bare return, no return, a loop exit); {m} random sessions of 4..28 lines; {len(hist)} long histories of failure (thousands of failing lines, lines failing up to {100000 if tier == "thorough" else 40000} calls deep; implementation alone) before each probe; a 70 000-character line; missing final newline, CRLF, empty input. Compared with the model (stdout split at the prompts, stderr, status 0); '
             'on the implementation alone: the probe answers exactly as in a fresh session. Non-trivial = every session.')
     return {'cli': cli, 'cases': [], 'rule': rule, 'exhaustive': True, 'cli_oracles': [cli_oracle_c20], 'cli_timeout': 20}
